@@ -146,17 +146,36 @@ def evaluate(cases):
 
 
 def shrink(ops, code):
-    """delta-debug the op list while the same reason code persists"""
+    """delta-debug the op list while the same reason code persists (long histories: by halves first, and at most 150
+    evaluations in all -- what is left is reported as it is)"""
     cur = list(ops)
-    changed = True
-    while changed:
+    budget = [80]
+
+    def still_bad(cand):
+        budget[0] -= 1
+        _, bad = evaluate([cand])
+        return 0 in bad and code in bad[0]
+    chunk = len(cur) // 2
+    while chunk >= 8 and budget[0] > 0:
+        i, progressed = 0, False
+        while i < len(cur) and budget[0] > 0:
+            cand = cur[:i] + cur[i + chunk:]
+            if cand and still_bad(cand):
+                cur, progressed = cand, True
+            else:
+                i += chunk
+        if not progressed:
+            chunk //= 2
+    changed = len(cur) <= 40
+    while changed and budget[0] > 0:
         changed = False
         for i in range(len(cur)):
             cand = cur[:i] + cur[i + 1:]
             if not cand:
                 continue
-            _, bad = evaluate([cand])
-            if 0 in bad and code in bad[0]:
+            if budget[0] <= 0:
+                break
+            if still_bad(cand):
                 cur, changed = cand, True
                 break
     return cur
